@@ -135,10 +135,11 @@ type Contracts struct {
 	FunTypes    map[string]string // named func type -> spec function giving its (pure) result
 	RawSMT      []string          // raw declarations added to every verification context
 	GhostHeaps  map[string]string // global ghost state: name -> sort
+	Globals     map[string][]string // package-level variables declared immutable after init: name -> props
 }
 
 func NewContracts() *Contracts {
-	return &Contracts{Funcs: map[string]*FuncContract{}, Monitors: map[string]*Monitor{}, Fields: map[string]*FieldMode{}, FieldModes: map[string][]*FieldMode{}, GhostHeaps: map[string]string{}, FunTypes: map[string]string{}}
+	return &Contracts{Funcs: map[string]*FuncContract{}, Monitors: map[string]*Monitor{}, Fields: map[string]*FieldMode{}, FieldModes: map[string][]*FieldMode{}, GhostHeaps: map[string]string{}, FunTypes: map[string]string{}, Globals: map[string][]string{}}
 }
 
 var tagRe = regexp.MustCompile(`^\[([^\]]*)\]`)
@@ -438,6 +439,20 @@ func (cs *Contracts) ParseFile(path string) error {
 				cs.Fields[fs[0]] = fm
 			}
 			cs.FieldModes[fs[0]] = append(cs.FieldModes[fs[0]], fm)
+		case "global":
+			// global NAME immutable props P...: the package-level variable is only assigned by the package initialiser
+			fs := strings.Fields(rest)
+			if len(fs) < 2 || fs[1] != "immutable" {
+				return fail(fmt.Errorf("global NAME immutable [props ...]"))
+			}
+			var props []string
+			for i, a := range fs {
+				if a == "props" {
+					props = fs[i+1:]
+				}
+			}
+			cs.Globals[fs[0]] = props
+			cur, curLoop, curHook = nil, nil, nil
 		case "ghostheap":
 			sp := strings.IndexAny(rest, " \t")
 			if sp < 0 {
